@@ -2,9 +2,10 @@
 import sys, traceback
 def main():
     try:
-        from selftest import test_peg, test_optab
+        from selftest import test_peg, test_optab, test_expand
         test_peg.run()
         test_optab.run()
+        test_expand.run()
     except Exception:
         traceback.print_exc()
         return 2
